@@ -524,7 +524,58 @@ Definition clear_empty_alias (fr : frag) : Res frag :=
   do p <- clear_loop (f_stats fr) (f_lines fr);
   Ok (mkFrag (fst p) (snd p) (f_errs fr)).
 
-(* ParseCommentFragment *)
-Definition parse_fragment (lines : list (N * bytes)) : Res frag :=
-  do fr <- frag_loop (mkFrag [] [] []) lines;
-  clear_empty_alias fr.
+(* ------------------------------------------------------------------ the repaired loop (fixes/C16-cont-after-bad.diff)
+   `frag_step` / `frag_loop` above are the loop of ParseCommentFragment BEFORE the repair: a continuation line is
+   appended to the last statement of fragment.Stats, whatever lines lie in between.  The repaired loop keeps
+   `lastAliasState`: the alias statement of the line directly above (continuation lines not counted), nil when that
+   line gave another statement, an error, AnnotateNotValidState or was no annotation line at all; a continuation
+   line is appended to lastAliasState only.  The model keeps the flag `la` = (lastAliasState != nil); whenever it is
+   true the last statement of Stats is that alias (Proofs/AnnFragment.v: fx_inv), so appendAliasState(lastAliasState)
+   is `append_alias_last`. *)
+Definition frag_step_fx (st : frag * bool) (ln : N * bytes) : Res (frag * bool) :=
+  let '(fr, la) := st in
+  let '(lno, text) := ln in
+  do ah <- check_head s_alias_head text;
+  match ah with
+  | Some c =>
+    match parse_extra_alias_line (mkLx c None) with
+    | POk None _ => Ok (fr, la)
+    | POk (Some ct) _ =>
+      if la then Ok (mkFrag (append_alias_last (f_stats fr) ct) (f_lines fr) (f_errs fr), la) else Ok (fr, la)
+    | PErr _ => Fault TypeAssert               (* an escaped ParseAnnotateErr panic: no recover on this path *)
+    | PFault k => Fault k
+    | PFuel => OutOfFuel
+    end
+  | None =>
+    (* lastAliasState = nil *)
+    do h <- check_head s_head text;
+    match h with
+    | None => Ok (fr, false)
+    | Some c =>
+      do r <- ann_parse_line (fuel_of c) c;
+      match r with
+      | inr e => Ok (mkFrag (f_stats fr) (f_lines fr) (f_errs fr ++ [(lno, length text, e)]), false)
+      | inl SNotValid => Ok (fr, false)
+      | inl s => Ok (mkFrag (f_stats fr ++ [s]) (f_lines fr ++ [lno]) (f_errs fr), is_alias s)
+                 (* lastAliasState, _ = annotateState.( *AnnotateAliasState ) *)
+      end
+    end
+  end.
+
+Fixpoint frag_loop_fx (st : frag * bool) (lines : list (N * bytes)) : Res (frag * bool) :=
+  match lines with
+  | [] => Ok st
+  | ln :: rest => do st' <- frag_step_fx st ln; frag_loop_fx st' rest
+  end.
+
+(* ParseCommentFragment, before (cont = false) and after (cont = true) the repair *)
+Definition parse_fragment_gen (cont : bool) (lines : list (N * bytes)) : Res frag :=
+  if cont then
+    do st <- frag_loop_fx (mkFrag [] [] [], false) lines;
+    clear_empty_alias (fst st)
+  else
+    do fr <- frag_loop (mkFrag [] [] []) lines;
+    clear_empty_alias fr.
+
+(* ParseCommentFragment of the code as it is *)
+Definition parse_fragment : list (N * bytes) -> Res frag := parse_fragment_gen (fx_cont deployed).
